@@ -417,8 +417,9 @@ def check_property(prop, tier, only=None, jobs=None, use_cache=True, do_replay=T
     jobs = jobs or int(os.environ.get("VERIF_JOBS", "8"))
     while not slot_queue.empty():
         slot_queue.get()
+    base = int(os.environ.get("VERIF_SLOT_BASE", "0"))
     for i in range(jobs):
-        slot_queue.put(i)
+        slot_queue.put(base + i)
 
     # memory-aware scheduling: total weight of concurrently running harnesses <= 8
     budget = threading.Semaphore(8)
